@@ -8,6 +8,7 @@ from .collmodel import Node, SHAPES
 # Clearing a window is generated only where the per-tick flags are the subject (C04, C05): the engine refuses to RECORD a
 # cleared window ("TSW clear ticks are not representable by the legacy scalar delta" - an explicit error, not a silent loss).
 WINDOW_CLEARS = False
+CONTAINER_INVALIDATE = False     # C04 only: explicit invalidation of a whole list / bundle / dictionary endpoint (op "I")
 
 
 def gen_op(rng, node, effective, universe=6, allow_invalidate=False):
@@ -116,8 +117,15 @@ def gen_cscript(rng, shape_name, start, end, *, effective=False, allow_invalidat
         if shape_name == "tsw":
             nops = 1          # the engine allows one window tick per evaluation time
         ops = []
+        container = node.kind in ("tsl", "tsb", "tsd")
+        if CONTAINER_INVALIDATE and allow_invalidate and container and node.valid() and rng.random() < 0.1:
+            # the whole endpoint is invalidated, alone in its cycle (what a write and an invalidation in ONE cycle leave behind is
+            # not pinned down by the property)
+            node.apply("I", t)
+            out.append(f"{t}|I")
+            continue
         for _ in range(nops):
-            op = gen_op(rng, node, effective, universe, allow_invalidate)
+            op = gen_op(rng, node, effective, universe, allow_invalidate and not container)
             if op is None:
                 continue
             node.apply(op, t)
@@ -147,7 +155,8 @@ def gen_coll_case(rng, name, *, shapes=None, probes=False, effective=False, allo
     for k in range(rng.choice([1, 2, 3])):
         sh = rng.choice(names)
         su = nu()
-        c.cscripts[su] = gen_cscript(rng, sh, start, end, effective=effective, allow_invalidate=allow_invalidate and sh == "ts", big=big)
+        c.cscripts[su] = gen_cscript(rng, sh, start, end, effective=effective, allow_invalidate=allow_invalidate and (sh == "ts" or (CONTAINER_INVALIDATE and sh in ("tsl", "tsb", "tsd", "dl", "lb", "bb", "bl", "qq"))),
+                                     big=big)
         st.append(S(f"c{k}", "csrc", shape=sh, uid=su))
         entry = {"uid": su, "shape": sh, "mirrors": [], "probes": [], "copies": []}
         if probes:
